@@ -704,6 +704,9 @@ def check_C18(rep, prog, tier):
             livekinds = {p: k[1] for p, k in b['kinds'].items()}
             got_native = [g for g in got_native if g[1] == '-' or livekinds.get(g[0]) == 'File']
         reproduced = bool(out.get('panic')) if b['kind'] == 'panic' else (got_native is not None and got_native != want)
+        if any('differs from its own tree' in str(g[1]) for g in b.get('got', [])):
+            # the version the backup just wrote, compared natively with the tree it was made from
+            reproduced = bool(out.get('post_diff'))
         if not reproduced and b['kind'] != 'panic' and sc.get('stored') and b.get('presence') != 'nested':
             # second attempt: the stored version written by the real backup() from a tree with the stored side's metadata (a defect
             # in what conserve RECORDS does not show in an archive written directly in the documented format)
